@@ -58,7 +58,8 @@ namespace sim
   void run_begin(const Options& o);
   // configuration knobs: drawn from the run PRNG in seed mode, read from the replay file otherwise
   long long cfg_int(const char* name, long long lo, long long hi);
-  long long cfg_weighted(const char* name, const std::vector<int>& weights); // index by weight
+  long long cfg_weighted(const char* name, const std::vector<int>& weights);
+  long long cfg_fixed(const char* name, long long dflt);   // never varied by exploration; a replay file may set it // index by weight
   bool thorough();               // tier knob: env VERIF_TIER=thorough in seed mode, recorded in the trace, read back on replay
   // fault kinds: enable bit and rate are swarm knobs of the run (cfg "f.<name>" = rate in permille, 0 = off)
   void fault_setup(const char* name, const std::vector<int>& permille_choices);
